@@ -1,6 +1,6 @@
 (* C09 — merge loses nothing when inputs agree on names; identity and fold laws. *)
 From Sigtools.Model Require Import Base Bind Roles Algebra Universe.
-From Sigtools.Proofs Require Import SmallModel Basics SweepDefs Bounded.
+From Sigtools.Proofs Require Import SmallModel Basics SweepDefs Bounded MergeNeutral.
 
 (* apply_params(s, *sort_params(s)) equals s, for all valid signatures *)
 Theorem C09_sort_apply_roundtrip s :
@@ -42,3 +42,12 @@ Theorem C09_exact_pairs_U2 a b :
   end.
 Proof. exact (merge_exact_pairs_U2 a b). Qed.
 Print Assumptions C09_exact_pairs_U2.
+
+(* for ALL valid signatures: a bare star-args / star-kwargs signature is neutral
+   on the right of merge (whatever the stars are called) *)
+Theorem C09_neutral_right s nva nvk sr dr :
+  valid_sig (params s) = true -> stars_plain (params s) ->
+  exists r, merge [s; mkSig [mkParam nva VP None None UEmpty; mkParam nvk VK None None UEmpty]
+                            None UEmpty sr dr] = Ok r /\ params r = params s.
+Proof. exact (merge_right_neutral s nva nvk sr dr). Qed.
+Print Assumptions C09_neutral_right.
